@@ -231,8 +231,9 @@ class VLoop(asyncio.SelectorEventLoop):
             if j.release_at is None:
                 j.release_at = self.vt + 120.0
             return self.vt < j.release_at
-        if j.longpark in ('job-end', 'start') and j.label == j.longpark:
-            # held before it starts, or where its work is done but its result not yet delivered, for a bounded virtual time
+        if isinstance(j.longpark, str) and j.label == j.longpark:
+            # held before it starts ('start'), where its work is done but its result not yet delivered ('job-end'), or at a named
+            # failpoint label (e.g. right before a particular file write), for a bounded virtual time
             if j.release_at is None:
                 j.release_at = self.vt + j.park_secs
             return self.vt < j.release_at
